@@ -214,6 +214,29 @@ func parseContractFile(path string) (*ContractFile, error) {
 			}
 		}
 	}
+	// implicit clause: a function that moves the read position never moves it backwards
+	// (checked on the function like any other postcondition, assumed by its callers; the
+	// loops of such a function carry it as an invariant)
+	for _, key := range cf.Order {
+		fc := cf.Funcs[key]
+		moves := false
+		for _, a := range fc.Assigns {
+			if a == "@pos" {
+				moves = true
+			}
+		}
+		if !moves || fc.Trusted != "" {
+			continue
+		}
+		if err := fc.addClause("ensures", "[C06,C14:pos-monotone] @pos >= old(@pos)", fc.Line); err != nil {
+			return nil, err
+		}
+		for n := range fc.Loops {
+			if err := fc.addClause("loop", fmt.Sprintf("%d invariant [C06,C14:pos-monotone] @pos >= old(@pos)", n), fc.Line); err != nil {
+				return nil, err
+			}
+		}
+	}
 	return cf, sc.Err()
 }
 
